@@ -86,7 +86,7 @@ def variants(tpl, budget, max_active=3, rnd=None, limit=None):
                 core.append(w)
     rest = [r for r in res if r not in core]
     (rnd or random).shuffle(rest)
-    return core + rest[:max(0, limit - len(core))]
+    return (core + rest[:max(0, limit - len(core))])[:max(limit, 1)]
 
 
 # ---------------------------------------------------------------- structured templates (delimiters '<' '>')
@@ -918,4 +918,148 @@ def c19_jobs(tier, seed):
                     continue
                 jobs.append(dict(harness='c19_history', label=f'{name} holes={sizes} chain={"→".join(c[0] + str(c[1]) for c in ch)}',
                                  params=dict(tpl=instantiate(tpl, sizes), chain=[list(c) for c in ch])))
+    return jobs
+
+
+# ---------------------------------------------------------------- C18 spelling independence (relational)
+def render2(ctx, tpl, ds, de, names):
+    """second spelling of the same template: other delimiters, other tag names (names: dict 't'/'m'/'u' -> byte list);
+    hole variables are shared with the first rendering (same z3 names)"""
+    src, parts = [], []
+    nh = 0
+    hole_vars = ctx._c18_holes
+    for p in tpl:
+        st = len(src)
+        if isinstance(p, str):
+            src += list(p.encode())
+            parts.append(dict(kind='lit', start=st, end=len(src)))
+        elif p[0] == 'h':
+            src += hole_vars[nh]
+            nh += 1
+            parts.append(dict(kind='hole', start=st, end=len(src)))
+        elif p[0] == 'o':
+            t = list(ds) + list(names[p[1]]) + (list((' ' + p[2]).encode()) if len(p) > 2 and p[2] else []) + list(de)
+            src += t
+            parts.append(dict(kind='open', start=st, end=len(src), text=t))
+        else:
+            t = list(ds) + [47] + list(names[p[1]]) + list(de)
+            src += t
+            parts.append(dict(kind='close', start=st, end=len(src), text=t))
+    return src, parts
+
+
+@harness('c18_spelling', covers=['something-removed', 'tag-survives', 'multibyte-delimiter', 'identical-delimiters'])
+def c18_spelling(ctx, p):
+    tpl = p['tpl']
+    cfg1 = cfg_from(p)
+    src1, parts1 = render(ctx, tpl, [60], [62])
+    ctx._c18_holes = [src1[q['start']:q['end']] for q in parts1 if q['kind'] == 'hole']
+    # second spelling
+    if 'ds' in p:
+        ds, de = list(p['ds'].encode()), list(p['de'].encode())
+    else:
+        ds, de = ctx.bytes('ds', p['ds_len']), ctx.bytes('de', p['de_len'])
+    if 'names' in p:
+        names = {k: list(v.encode()) for k, v in p['names'].items()}
+    else:
+        names = {k: ctx.bytes('nm_' + k, p['name_len'], exclude=(32, 10, 9, 13, 61, 34, 39, 47)) for k in ('t', 'm', 'u')}
+        if ctx.symbolic:
+            for a_, b_ in (('t', 'm'), ('t', 'u'), ('m', 'u')):
+                ctx.constrain(b_not(bytes_eq(names[a_], names[b_])))
+        else:
+            ctx.constrain(names['t'] != names['m'] and names['t'] != names['u'] and names['m'] != names['u'])
+    # "the delimiter characters do not occur elsewhere in the text": no byte of the text, of the tag names or of the attribute
+    # texts equals any delimiter byte; the delimiters contain no line break
+    text_bytes = []
+    for q, part in zip(parts1, tpl):
+        if q['kind'] in ('lit', 'hole'):
+            text_bytes += src1[q['start']:q['end']]
+        elif q['kind'] == 'open' and len(part) > 2:
+            text_bytes += list(part[2].encode())
+    text_bytes += [47, 32]
+    for nm in names.values():
+        text_bytes += nm
+    uniq = []
+    seen = set()
+    for b in text_bytes:
+        k = b if isinstance(b, int) else ('s', b.get_id())
+        if k not in seen:
+            seen.add(k)
+            uniq.append(b)
+    cons = [b_not(b_eq(ds[0], 32)), b_not(b_eq(ds[0], 9))]  # a start delimiter beginning with a blank is indistinguishable from indentation
+    for dbyte in ds + de:
+        cons.append(b_not(b_eq(dbyte, 10)))
+        for b in uniq:
+            cons.append(b_not(b_eq(dbyte, b)))
+    ctx.constrain(b_and(cons))
+    if ctx.symbolic:
+        cover_if(ctx, 'multibyte-delimiter', uge(ds[0], 0x80))
+        cover_if(ctx, 'identical-delimiters', bytes_eq(ds, de) if len(ds) == len(de) else False)
+    else:
+        if ds[0] >= 0x80:
+            ctx.cover('multibyte-delimiter')
+        if ds == de:
+            ctx.cover('identical-delimiters')
+    src2, parts2 = render2(ctx, tpl, ds, de, names)
+    cfg2 = dict(cfg1, tl_tag=names['t'], rm_tag=names['m'])
+    out1 = ctx.impl.clean(src1, [60], [62], cfg1)
+    out2 = ctx.impl.clean(src2, ds, de, cfg2)
+    # rewrite out1 into the second spelling: every '<' ... '>' in out1 is one of the template's tags (holes and literals have neither)
+    tagmap = {}
+    for q1, q2 in zip(parts1, parts2):
+        if q1['kind'] in ('open', 'close'):
+            tagmap[bytes(src1[q1['start']:q1['end']])] = q2['text']
+    exp = []
+    i = 0
+    survived = False
+    while i < len(out1):
+        b = out1[i]
+        if isinstance(b, int) and b == 60:
+            j = i
+            while not (isinstance(out1[j], int) and out1[j] == 62):
+                j += 1
+            key = bytes(out1[i:j + 1])
+            if key not in tagmap:
+                ctx.check(False, 'first run produced a damaged tag', 'damaged-tag')
+            exp += tagmap[key]
+            survived = True
+            i = j + 1
+        else:
+            exp.append(b)
+            i += 1
+    if len(out1) < len(src1):
+        ctx.cover('something-removed')
+    if survived:
+        ctx.cover('tag-survives')
+    ctx.check(len(out2) == len(exp) and b_and(same(a, b) for a, b in zip(out2, exp)),
+              'clean under the second spelling is not the rewritten output of the first spelling', 'spelling-dependent-clean')
+    l1 = ctx.impl.list(src1, [60], [62], cfg1, all=True, format='json')
+    l2 = ctx.impl.list(src2, ds, de, cfg2, all=True, format='json')
+    r1 = [(it['line_range'], it['current_status']) for it in l1.get('items', [])]
+    r2 = [(it['line_range'], it['current_status']) for it in l2.get('items', [])]
+    ctx.check(r1 == r2, f'list_all line ranges differ between spellings: {r1} vs {r2}', 'spelling-dependent-list')
+
+
+def c18_jobs(tier, seed):
+    from props_front import POOL
+    rnd = random.Random(seed + 18)
+    jobs = []
+    names_pool = [dict(t='time-limited', m='removal-marker', u='x-y'), dict(t='期限', m='削除', u='他'), dict(t='T', m='tm', u='t')]
+    tnames = ['block', 'inline', 'ready-in-pending', 'unwrap', 'two-blocks', 'multibyte-seam', 'only-element', 'pending-in-ready', 'unwrap-nested-pending',
+              'ready-in-unregistered', 'last-line']
+    budget = 2 if tier == 'quick' else 4
+    if tier == 'quick':
+        tnames = ['ready-in-pending', 'unwrap-nested-pending', 'inline', 'pending-in-ready', 'multibyte-seam']
+    for name in tnames:
+        tpl = STRUCT[name]
+        vs = variants(tpl, budget, 2, rnd, 1 if tier == 'quick' else 6)
+        for sizes in vs:
+            inst = instantiate(tpl, sizes)
+            for (ds, de) in (POOL[1:] if tier != 'quick' else [POOL[1], POOL[6], POOL[8]]):
+                nm = names_pool[(len(jobs)) % len(names_pool)]
+                jobs.append(dict(harness='c18_spelling', label=f'{name} holes={sizes} ds={ds!r} de={de!r} names={nm["t"]}/{nm["m"]}',
+                                 params=dict(tpl=inst, ds=ds, de=de, names=nm)))
+            for (a, b, nl) in ([(1, 1, 1), (2, 2, 2)] if tier == 'quick' else [(1, 1, 1), (2, 2, 2), (3, 3, 2), (1, 2, 1), (2, 1, 2), (3, 1, 3), (4, 4, 1)]):
+                jobs.append(dict(harness='c18_spelling', label=f'{name} holes={sizes} symbolic |ds|={a}B |de|={b}B |names|={nl}B',
+                                 params=dict(tpl=inst, ds_len=a, de_len=b, name_len=nl)))
     return jobs
